@@ -48,6 +48,10 @@ class FakeOS(object):
         raise OSError(d)
 
 
+from vlib import fakeos
+fakeos.complete(FakeOS, FakePath)
+
+
 class patched(object):
     def __enter__(self):
         self.old = (sm.getmtime, sm.__dict__.get('open'), Project.get_path)
